@@ -13,7 +13,7 @@ RULE = ('seeded sessions of 1-6 stream operations (shell, exec_out, streaming_sh
         '>= 1 multi-WRITE transfer in the run; distinct = event-log digests')
 ASSUMPTIONS = ['the device stalls until the OKAY it is owed arrives, as adbd does, so a missing OKAY becomes a timeout',
                'that list/stat/pull close their stream is C08/C09\'s statement; reboot() legitimately leaves its stream open']
-EXPECT_PROBES = {'all': ['c04_multi_wrte_push', 'c04_ge_4_streams', 'empty_payload_wrte_acked', 'push_fail_sent', 'fail_before_okay', 'wrte_in_flight_at_host_close', 'recv_closed_mid_transfer']}
+EXPECT_PROBES = {'all': ['c04_multi_wrte_push', 'c04_ge_4_streams', 'empty_payload_wrte_acked', 'push_fail_sent', 'fail_before_okay', 'wrte_in_flight_at_host_close', 'recv_closed_mid_transfer', 'late_okay']}
 KINDS = ['shell', 'exec_out', 'streaming_shell', 'root', 'list', 'stat', 'pull', 'pull', 'push', 'push']
 OWN = ('protocol', 'wrong-result', 'unexpected-exception', 'timeout-instead-of-result', 'missing-exception', 'wrong-exception', 'hang', 'no-termination',
        'unacked-write', 'clse-count')
@@ -53,6 +53,16 @@ def generate(seed, tier):
         d['fs'][p]['records'] = [g.pick([500, 1000, 2000])]
         d.setdefault('recv_close', {})[p] = {'n': g.int(0, 3)}
         scn['actors'][0].append({'op': 'pull', 'path': p, 'dest': 'bytesio', 'rt': 2.0, 'tt': 1.0})
+    elif c == 5:
+        # the OKAY for one host WRITE of a multi-WRITE push comes later than read_timeout_s: the host must give up, not send again
+        d['maxdata'] = 4096
+        d['ack_delay'] = {'nth': g.int(0, 2), 'delay': 1.5}
+        if g.chance(0.6):
+            scn['config']['idle_returns_empty'] = True      # the wait ends in the library's own AdbTimeoutError, not the transport's
+            scn['config']['idle_cost'] = 0.05
+        d.pop('push_fail', None)
+        scn['actors'][0].append({'op': 'push', 'src': 'bytesio', 'content': {'seed': g.int(0, 1 << 30), 'size': g.int(9000, 20000), 'alpha': 'bin'}, 'path': '/data/local/tmp/slow',
+                                 'mtime': 4, 'rt': 0.25, 'tt': 0.2, 'expect_timeout': True})
     return {'seed': seed, 'scn': scn}
 
 
